@@ -31,20 +31,32 @@ func govAuthority() string { return authtypes.NewModuleAddress(govtypes.ModuleNa
 // message names identity a.Ident as authority (a.Ident < 0: the governance module account) and
 // is signed by that identity, or - as a probe - by identity a.Signer-1.
 func (m *Machine) updateParams(a *Action) (Outcome, error) {
-	c := m.C
-	ctx := c.Ctx()
 	authority := govAuthority()
 	claimed := m.W.Other
 	if a.Ident >= 0 {
 		claimed = m.Ident(a.Ident)
 		authority = claimed.Bech32()
 	}
+	msg, err := m.paramsMsg(a, authority)
+	if err != nil {
+		return Outcome{}, err
+	}
+	if a.Ident < 0 && a.Signer == 0 {
+		return Outcome{}, fmt.Errorf("the governance account cannot sign")
+	}
+	return m.cosmosAs(a, claimed, msg)
+}
+
+// paramsMsg builds the MsgUpdateParams of a.Module that changes one visible parameter.
+func (m *Machine) paramsMsg(a *Action, authority string) (sdk.Msg, error) {
+	c := m.C
+	ctx := c.Ctx()
 	var msg sdk.Msg
 	switch a.Module {
 	case "assets":
 		p, err := c.App.AssetsKeeper.GetParams(ctx)
 		if err != nil || p == nil {
-			return Outcome{}, fmt.Errorf("assets params: %v", err)
+			return nil, fmt.Errorf("assets params: %v", err)
 		}
 		np := *p
 		np.ExocoreLzAppAddress = m.Ident(maxInt(a.Signer-1, 0)).Addr.Hex() // the classic take-over: become the gateway
@@ -69,12 +81,9 @@ func (m *Machine) updateParams(a *Action) (Outcome, error) {
 		p.CommunityTax = p.CommunityTax.Add(sdk.NewDecWithPrec(1, 3))
 		msg = &feedisttypes.MsgUpdateParams{Authority: authority, Params: p}
 	default:
-		return Outcome{}, fmt.Errorf("unknown module %q", a.Module)
+		return nil, fmt.Errorf("unknown module %q", a.Module)
 	}
-	if a.Ident < 0 && a.Signer == 0 {
-		return Outcome{}, fmt.Errorf("the governance account cannot sign")
-	}
-	return m.cosmosAs(a, claimed, msg)
+	return msg, nil
 }
 
 var _ = sim.ForgeOwnKey
